@@ -88,6 +88,18 @@ def run(ctx: Ctx):
     _sitebase.floors(ctx, sa)
     t = sa.types
     _sitebase.report(ctx, sa, {"illtyped": "leaf-type-in-union", "miscoerce": "alternative-valid"}, {})
+    # unions handled by cattrs' own disambiguator pick the alternative by wire name, which it reads from the
+    # `.overrides` of the per-class structure function (A2): the structure factory must hand back the generated
+    # function with the camelCase renames, else another alternative is chosen silently
+    from .. import special
+    from . import _imgbase
+    im = _imgbase.image(ctx)
+    probs = [p_ for p_ in special.factory_wiring(im) if p_[0].startswith("structure")
+             and not (":order:" in p_[0] and "omit_if_default:" in p_[1])]
+    for construct, msg, ln in probs:
+        ctx.fail("native-alternative-by-wire-name", construct, msg, P_HOOKS, ln or None)
+    if not probs:
+        ctx.ok("native-alternative-by-wire-name")
     # forward references
     amap = t.tables.get("ALL_TYPES_MAP")
     keys = {}
